@@ -24,6 +24,9 @@ def circuits(rng, n_extra=0):
     P = random_subgroup_point(rng); Q = random_subgroup_point(rng)
     p = PProg(); a, _ = p.pt(ext_of(P)); b, _ = p.pt(ext_of(Q), "ppt"); p.add(a, b); p.tf(a)
     out.append(("points", p.src()))
+    # 3b. fixed-base multiplication (the only user of the fixed-base widget; n = 512), one public input after it
+    p = PProg(); sc = p.w(rng.fe() % RJ); p.mulgen(sc, ext_of(random_subgroup_point(rng))); p.pub(rng.fe())
+    out.append(("fixed-base", p.src()))
     # 4. pad to exactly a power of two with a public input on the last row
     p = Prog(); x = p.w(3)
     for _ in range(9):
